@@ -331,7 +331,7 @@ def check(ctx: Ctx) -> None:
             ob.site(m, None, f"Group.{name} reads the member list", attrs=sorted(attrs))
             if attrs != {"_gateways"}:
                 ob.violation(m, m.node, f"Group.{name} consults {sorted(attrs)} instead of the single member list _gateways")
-        mc = g.methods["__contains__"]
+        mc = repo.flat(g.methods["__contains__"])
         subs = [n for n in repo.own_nodes(mc) if isinstance(n, ast.Subscript)]
         attrs = {n.attr for n in repo.own_nodes(mc) if isinstance(n, ast.Attribute) and unparse(n.value) == "self"}
         ob.site(mc, None, "membership is defined through lookup (self[key])")
@@ -343,7 +343,7 @@ def check(ctx: Ctx) -> None:
                 and any(isinstance(a, ast.Attribute) and a.attr == "id" and xtext(repo, gi, b) == keyp for a, b in ((n.left, n.comparators[0]), (n.comparators[0], n.left)))]
         if not cmp_:
             ob.violation(gi, gi.node, "lookup by id does not compare gateway ids")
-        it = g.methods["__iter__"]
+        it = repo.flat(g.methods["__iter__"])
         r = [n for n in repo.own_nodes(it) if isinstance(n, ast.Return)]
         if not r or "self._gateways" not in unparse(r[0].value) or "sorted" in unparse(r[0].value) or "reversed" in unparse(r[0].value):
             ob.violation(it, it.node, "iteration does not follow the member list's own order")
